@@ -29,6 +29,7 @@ type Cfg struct {
 	CloseTimeoutMs int64    `json:"close_timeout_ms"`
 	Buf            int      `json:"buf"`
 	FailSaves      []int    `json:"fail_saves,omitempty"`
+	Location       string   `json:"location,omitempty"`    // session option Location (time zone of SendingTime); "" = the default (UTC)
 	LogonCbNs      int64    `json:"logon_cb_ns,omitempty"` // acceptor (full rig): virtual time the application's logon callback takes
 	User           string   `json:"user,omitempty"`
 	Pass           string   `json:"pass,omitempty"`
@@ -106,6 +107,13 @@ func Opts(methods []string) *session.Opts {
 			SignatureProblem: 8, CompIDProblem: 9, Other: 99,
 		},
 	}
+}
+
+// OptsFor is Opts plus the configuration's other session options.
+func OptsFor(cfg Cfg) *session.Opts {
+	o := Opts(cfg.Methods)
+	o.Location = cfg.Location
+	return o
 }
 
 // Approves is the logon-callback policy.
@@ -270,7 +278,7 @@ func runDirect(cfg Cfg, steps []Step, hooks *Hooks, maxHB int, tr *Trace) {
 	var err error
 	closeTimeout := time.Duration(cfg.CloseTimeoutMs) * time.Millisecond
 	if cfg.Role == "acceptor" {
-		r.s, err = session.NewAcceptorSession(Opts(cfg.Methods), r.h,
+		r.s, err = session.NewAcceptorSession(OptsFor(cfg), r.h,
 			&session.LogonSettings{LogonTimeout: 30 * time.Second, CloseTimeout: closeTimeout,
 				HeartBtLimits: &session.IntLimits{Min: cfg.HBMin, Max: cfg.HBMax}},
 			func(req *session.LogonSettings) error {
@@ -281,7 +289,7 @@ func runDirect(cfg Cfg, steps []Step, hooks *Hooks, maxHB int, tr *Trace) {
 				return fmt.Errorf("refused")
 			}, r.store, r.store)
 	} else {
-		r.s, err = session.NewInitiatorSession(r.h, Opts(cfg.Methods),
+		r.s, err = session.NewInitiatorSession(r.h, OptsFor(cfg),
 			&session.LogonSettings{TargetCompID: cfg.Target, SenderCompID: cfg.Sender, HeartBtInt: cfg.HBInt,
 				EncryptMethod: cfg.Methods[0], Username: cfg.User, Password: cfg.Pass, CloseTimeout: closeTimeout,
 				LogonTimeout: 30 * time.Second},
